@@ -252,9 +252,8 @@ def r2(ctx, cfg):
                    sample="storage<-storage, prefix<-%s(%s)" % (enc.rsplit("::", 1)[1], arg))
 
 
-def r3(ctx, cfg):
+def r3(ctx, cfg, R="C07.R3"):
     F, P = cfg.facts, cfg.prov
-    R = "C07.R3"
     key = NH + "range_with_prefix"
     f = ctx.need_fn(R, key)
     if f is None:
